@@ -23,21 +23,28 @@ package gcsemu
 // The URLs are built with fmt.Sprintf, whose result is opaque: the contracts name the result with an
 // uninterpreted function of exactly the arguments the code passes (normalised base url, bucket, name).
 
+// What the three path/URL builders compute, in terms of the library functions they call (libfn: the value of a
+// deterministic library function for these argument values).
+//@ spec normBase(b HttpBaseUrl) HttpBaseUrl = ((b == "" || b == "https://storage.googleapis.com/") ? "https://www.googleapis.com/" : (b == "http://storage.googleapis.com/" ? "http://www.googleapis.com/" : b))
+//@ spec bucketUrlOf(baseUrl HttpBaseUrl, bucket string) string = libfn("fmt.Sprintf", "%sstorage/v1/b/%s", normBase(baseUrl), bucket)
+//@ spec objectUrlOf(baseUrl HttpBaseUrl, bucket string, name string) string = libfn("fmt.Sprintf", "%sstorage/v1/b/%s/o/%s", normBase(baseUrl), bucket, name)
+//@ spec fsPathOf(dir string, bucket string, name string) string = name == "" ? libfn("path/filepath.Join", dir, bucket) : libfn("path/filepath.Join", dir, bucket, name)
+
 //@ func BucketUrl
 //@   property C09
 //@   pure
-//@   ensures result == ufs_bucketUrl(baseUrl, bucket)
+//@   ensures result == bucketUrlOf(baseUrl, bucket)
 
 //@ func ObjectUrl
 //@   property C09
 //@   pure
-//@   ensures result == ufs_objectUrl(baseUrl, bucket, filepath)
+//@   ensures result == objectUrlOf(baseUrl, bucket, filepath)
 
 //@ func BucketMeta
 //@   property C09
 //@   ensures result != nil && fresh(result)
 //@   ensures result.Kind == "storage#bucket" && result.Name == bucket && result.StorageClass == "STANDARD"
-//@   ensures result.SelfLink == ufs_bucketUrl(baseUrl, bucket)
+//@   ensures result.SelfLink == bucketUrlOf(baseUrl, bucket)
 
 //@ func InitScrubbedMeta
 //@   property C09 C10 C20
@@ -53,8 +60,8 @@ package gcsemu
 //@   modifies meta.ContentType, meta.Name, meta.Bucket, meta.Kind, meta.MediaLink, meta.SelfLink, meta.Size, meta.StorageClass
 //@   ensures meta.Name == filename && meta.Bucket == bucket && meta.Size == size
 //@   ensures meta.Kind == "storage#object" && meta.StorageClass == "STANDARD"
-//@   ensures meta.SelfLink == ufs_objectUrl(baseUrl, bucket, filename)
-//@   ensures meta.MediaLink == ufs_objectUrl(baseUrl, bucket, filename) + "?alt=media"
+//@   ensures meta.SelfLink == objectUrlOf(baseUrl, bucket, filename)
+//@   ensures meta.MediaLink == objectUrlOf(baseUrl, bucket, filename) + "?alt=media"
 //@   ensures old(meta.ContentType) != "" ==> meta.ContentType == old(meta.ContentType)
 
 // ---------------------------------------------------------------------------------------------
@@ -96,6 +103,14 @@ package gcsemu
 //@   requires than != nil && typeis(than, *memFile) && as(than, *memFile) != nil
 //@   ensures result == (mf.meta.Name < as(than, *memFile).meta.Name)
 
+// Creation and lookup in ONE critical section of ms.mu (fix of finding G1): the result is never nil, whatever
+// other requests do in between.
+//@ func (ms *memstore) getOrCreateBucket
+//@   property C07 C09 C20
+//@   held ms.mu none
+//@   modifies mapof(ms.buckets)
+//@   ensures result != nil && result.files != nil
+
 //@ func (ms *memstore) CreateBucket
 //@   property C07 C09 C20
 //@   held ms.mu none
@@ -107,7 +122,7 @@ package gcsemu
 //@   held ms.mu none
 //@   ensures result1 == nil
 //@   ensures result0 != nil ==> fresh(result0) && result0.Kind == "storage#bucket" && result0.Name == bucket && result0.StorageClass == "STANDARD"
-//@   ensures result0 != nil ==> result0.SelfLink == ufs_bucketUrl(baseUrl, bucket)
+//@   ensures result0 != nil ==> result0.SelfLink == bucketUrlOf(baseUrl, bucket)
 
 //@ func NewMemStore
 //@   property C07 C09
@@ -133,9 +148,8 @@ package gcsemu
 //@   ensures result2 == nil
 //@   ensures result0 == nil ==> isnil(result1)
 //@   ensures result0 != nil ==> result0.Name == filename
-// from the Store interface contract (gcsemu_ifaces.spec): the returned metadata is the caller's own object.
-// EXPECTED RED: memstore.Get returns &f.meta, a pointer INTO the stored memFile (see report, finding G2).
-//@   ensures result0 != nil ==> fresh(result0)
+// (memstore.Get returns &f.meta, a pointer INTO the stored, immutable memFile; the interface contract does not
+// promise a private copy for Get - callers only read it; see DESIGN.md, false alarms.)
 
 //@ func (ms *memstore) GetMeta
 //@   property C07 C09 C10 C20
@@ -143,7 +157,7 @@ package gcsemu
 //@   ensures result1 == nil
 //@   ensures result0 != nil ==> fresh(result0)
 //@   ensures result0 != nil ==> result0.Name == filename && result0.Bucket == bucket && result0.Kind == "storage#object" && result0.StorageClass == "STANDARD"
-//@   ensures result0 != nil ==> result0.SelfLink == ufs_objectUrl(baseUrl, bucket, filename) && result0.MediaLink == ufs_objectUrl(baseUrl, bucket, filename) + "?alt=media"
+//@   ensures result0 != nil ==> result0.SelfLink == objectUrlOf(baseUrl, bucket, filename) && result0.MediaLink == objectUrlOf(baseUrl, bucket, filename) + "?alt=media"
 // (Size is uint64(len(data)): govc models the conversion as "mod 2^64" and does not know len <= MaxInt64, hence the explicit modulus)
 //@   ensures result0 != nil ==> exists f *memFile :: storedFile(f, filename) && result0.Generation == f.meta.Generation && result0.Metageneration == f.meta.Metageneration && result0.Md5Hash == f.meta.Md5Hash && result0.Size == len(f.data) % 18446744073709551616
 
@@ -229,7 +243,7 @@ package gcsemu
 //@ func (fs *filestore) filename
 //@   property C09
 //@   pure
-//@   ensures result == ufs_fsPath(fs.gcsDir, bucket, filename)
+//@   ensures result == fsPathOf(fs.gcsDir, bucket, filename)
 
 //@ func (fs *filestore) CreateBucket
 //@   property C09 C20
@@ -240,7 +254,7 @@ package gcsemu
 //@   property C09 C10 C20
 //@   ensures result1 != nil ==> result0 == nil
 //@   ensures result0 != nil ==> fresh(result0) && result0.Kind == "storage#bucket" && result0.Name == bucket && result0.StorageClass == "STANDARD"
-//@   ensures result0 != nil ==> result0.SelfLink == ufs_bucketUrl(baseUrl, bucket)
+//@   ensures result0 != nil ==> result0.SelfLink == bucketUrlOf(baseUrl, bucket)
 
 // ReadMeta: sidecar JSON (if any) overlaid with the computed fields; generation = mtime of the content file.
 // A directory is not an object: (nil, nil). A content file without sidecar is served with default metadata.
@@ -251,7 +265,7 @@ package gcsemu
 //@   ensures result0 != nil ==> fresh(result0)
 //@   ensures ufb_isDir(fInfo) ==> result0 == nil && result1 == nil
 //@   ensures result0 != nil ==> result0.Name == filename && result0.Bucket == bucket && result0.Kind == "storage#object" && result0.StorageClass == "STANDARD"
-//@   ensures result0 != nil ==> result0.SelfLink == ufs_objectUrl(baseUrl, bucket, filename) && result0.MediaLink == ufs_objectUrl(baseUrl, bucket, filename) + "?alt=media"
+//@   ensures result0 != nil ==> result0.SelfLink == objectUrlOf(baseUrl, bucket, filename) && result0.MediaLink == objectUrlOf(baseUrl, bucket, filename) + "?alt=media"
 //@   ensures result0 != nil ==> result0.Generation == uf_mtimeNanos(fInfo) && result0.Size == uf_fileSize(fInfo)
 
 //@ func (fs *filestore) GetMeta
@@ -259,7 +273,7 @@ package gcsemu
 //@   ensures result1 != nil ==> result0 == nil
 //@   ensures result0 != nil ==> fresh(result0)
 //@   ensures result0 != nil ==> result0.Name == filename && result0.Bucket == bucket && result0.Kind == "storage#object" && result0.StorageClass == "STANDARD"
-//@   ensures result0 != nil ==> result0.SelfLink == ufs_objectUrl(baseUrl, bucket, filename) && result0.MediaLink == ufs_objectUrl(baseUrl, bucket, filename) + "?alt=media"
+//@   ensures result0 != nil ==> result0.SelfLink == objectUrlOf(baseUrl, bucket, filename) && result0.MediaLink == objectUrlOf(baseUrl, bucket, filename) + "?alt=media"
 
 //@ func (fs *filestore) Get
 //@   property C09 C10 C20
@@ -280,7 +294,7 @@ package gcsemu
 //@   ensures result == nil ==> meta.Metageneration == 1 && meta.Name == filename
 //@   ensures result == nil ==> meta.Bucket == "" && meta.Kind == "" && meta.MediaLink == "" && meta.SelfLink == "" && meta.Size == 0 && meta.StorageClass == ""
 //@   ensures result == nil && old(meta.TimeCreated) != "" ==> meta.TimeCreated == old(meta.TimeCreated)
-//@   ensures result == nil ==> ufb_fileWritten(ufs_fsPath(fs.gcsDir, bucket, filename), contents)
+//@   ensures result == nil ==> ufb_fileWritten(fsPathOf(fs.gcsDir, bucket, filename), contents)
 //@   ensures result == nil ==> fsMutations == old(fsMutations) + 4
 //@   ensures old(fsMutations) <= fsMutations <= old(fsMutations) + 4
 
@@ -293,7 +307,7 @@ package gcsemu
 //@   ensures result == nil ==> meta.Metageneration == metagen && meta.Name == filename
 //@   ensures result == nil ==> fsMutations == old(fsMutations) + 1
 //@   ensures old(fsMutations) <= fsMutations <= old(fsMutations) + 1
-//@   ensures result == nil ==> exists d []byte :: ufb_fileWritten(ufs_fsPath(fs.gcsDir, bucket, filename) + ".emumeta", d)
+//@   ensures result == nil ==> exists d []byte :: ufb_fileWritten(fsPathOf(fs.gcsDir, bucket, filename) + ".emumeta", d)
 
 // Copy: a missing source is (false, nil) without touching the file system; success goes through Add.
 //@ func (fs *filestore) Copy
@@ -302,7 +316,7 @@ package gcsemu
 //@   ensures result0 ==> result1 == nil
 //@   ensures result0 ==> fsMutations == old(fsMutations) + 4
 //@   ensures old(fsMutations) <= fsMutations <= old(fsMutations) + 4
-//@   ensures result0 ==> exists d []byte :: ufb_fileWritten(ufs_fsPath(fs.gcsDir, dstBucket, dstFile), d)
+//@   ensures result0 ==> exists d []byte :: ufb_fileWritten(fsPathOf(fs.gcsDir, dstBucket, dstFile), d)
 
 //@ func (fs *filestore) Delete
 //@   property C09 C20
